@@ -176,7 +176,7 @@ Proof.
   unfold accepts. cbn [validate]. rewrite custom_fence. cbn [has_type].
   split.
   - intro H. destruct v; try discriminate H; exists l; (split; [reflexivity|]);
-      apply forallb_is_str; simpl in H; destruct (forallb is_str l); [reflexivity|discriminate].
+      apply forallb_is_str; simpl in H; (destruct (forallb is_str l); [reflexivity|discriminate]).
   - intros [l [S F]]. apply forallb_is_str in F.
     apply seq3_cases in S as [-> | [-> | ->]]; simpl; rewrite F; reflexivity.
 Qed.
@@ -421,4 +421,868 @@ Theorem field_ok_sound E f :
 Proof.
   unfold field_ok. destruct (doc_ty f) as [t|]; [|discriminate]. intro H.
   exists t. split; [reflexivity|]. apply vexpr_eqb_eq in H. rewrite H. apply combinators_sound_complete.
+Qed.
+
+(* ====================================================================== *)
+(* Normal form                                                            *)
+(* ====================================================================== *)
+
+(* ---------- validators without custom functions never coerce ---------- *)
+
+Lemma iter_all_none f l :
+  (forall x c, f x = Ok c -> c = None) ->
+  forall acc r, iter_all f l acc = Ok r -> r = acc.
+Proof.
+  intro Hf. induction l as [|x l IH]; intros acc r H; simpl in H.
+  - inv H. reflexivity.
+  - destruct (f x) as [c|e] eqn:Fx; simpl in H; [|discriminate].
+    apply Hf in Fx. subst c. simpl in H. apply IH in H. destruct acc; exact H.
+Qed.
+
+Lemma iter_pairs_none fk fv l :
+  (forall x c, fk x = Ok c -> c = None) -> (forall x c, fv x = Ok c -> c = None) ->
+  forall acc r, iter_pairs fk fv l acc = Ok r -> r = acc.
+Proof.
+  intros Hk Hv. induction l as [|[k x] l IH]; intros acc r H; simpl in H.
+  - inv H. reflexivity.
+  - destruct (fk k) as [c1|e] eqn:Fk; simpl in H; [|discriminate].
+    destruct (fv x) as [c2|e] eqn:Fv; simpl in H; [|discriminate].
+    apply Hk in Fk. apply Hv in Fv. subst. simpl in H. apply IH in H. destruct acc; exact H.
+Qed.
+
+Lemma no_custom_none E e :
+  no_custom e = true -> forall v c, validate E e v = Ok c -> c = None.
+Proof.
+  induction e as [|ts tup|e IH|opts|m IHm it IHit|k IHk vv IHv mm IHmm|n]; intros NC v c H; simpl in *.
+  - inv H. reflexivity.
+  - destruct (instance_of_ok ts tup v); inv H. reflexivity.
+  - destruct v; try (eapply IH; eassumption). inv H. reflexivity.
+  - destruct (in_ok opts v); inv H. reflexivity.
+  - apply andb_true_iff in NC as [N1 N2].
+    destruct (validate E it v) as [c0|e0] eqn:V0; simpl in H; [|discriminate].
+    apply (IHit N2) in V0. subst c0.
+    destruct (py_iter v) as [items|e1]; simpl in H; [|discriminate].
+    eapply iter_all_none in H; [exact H|]. intros x c1. apply IHm. exact N1.
+  - apply andb_true_iff in NC as [N12 N3]. apply andb_true_iff in N12 as [N1 N2].
+    destruct (validate E mm v) as [c0|e0] eqn:V0; simpl in H; [|discriminate].
+    apply (IHmm N3) in V0. subst c0.
+    destruct (py_items v) as [pairs|e1]; simpl in H; [|discriminate].
+    eapply iter_pairs_none in H; [exact H| |]; intros x c1; [apply IHk|apply IHv]; assumption.
+  - discriminate.
+Qed.
+
+(* ---------- the canonical representation of a set of str ---------- *)
+
+Lemma str_ltb_irrefl a : str_ltb a a = false.
+Proof.
+  induction a as [|x a IH]; simpl; [reflexivity|].
+  rewrite N.ltb_irrefl, N.eqb_refl, IH. reflexivity.
+Qed.
+
+Lemma str_ltb_trans a : forall b c, str_ltb a b = true -> str_ltb b c = true -> str_ltb a c = true.
+Proof.
+  induction a as [|x a IH]; intros [|y b] [|z c] H1 H2; simpl in *; try discriminate; auto.
+  apply orb_true_iff in H1. apply orb_true_iff in H2. apply orb_true_iff.
+  destruct H1 as [H1|H1], H2 as [H2|H2].
+  - left. apply N.ltb_lt in H1, H2. apply N.ltb_lt. lia.
+  - apply andb_true_iff in H2 as [E _]. apply N.eqb_eq in E. subst. left. exact H1.
+  - apply andb_true_iff in H1 as [E _]. apply N.eqb_eq in E. subst. left. exact H2.
+  - apply andb_true_iff in H1 as [E1 L1]. apply andb_true_iff in H2 as [E2 L2].
+    apply N.eqb_eq in E1, E2. subst. right. rewrite N.eqb_refl. simpl. eapply IH; eassumption.
+Qed.
+
+Lemma str_total a : forall b, str_eqb a b = false -> str_ltb a b = false -> str_ltb b a = true.
+Proof.
+  induction a as [|x a IH]; intros [|y b] E L; simpl in *; try discriminate; auto.
+  apply orb_false_iff in L as [L1 L2].
+  apply N.ltb_ge in L1.
+  destruct (y =? x) eqn:Eyx.
+  - apply N.eqb_eq in Eyx. subst. rewrite N.eqb_refl in *. simpl in *.
+    rewrite N.ltb_irrefl. simpl. apply IH; assumption.
+  - apply N.eqb_neq in Eyx. apply orb_true_iff. left. apply N.ltb_lt. lia.
+Qed.
+
+Lemma str_ltb_neq a b : str_ltb a b = true -> str_eqb a b = false.
+Proof.
+  intro H. apply str_eqb_neq. intro E. subst. rewrite str_ltb_irrefl in H. discriminate.
+Qed.
+
+Fixpoint ssorted (l : list str) : Prop :=
+  match l with
+  | [] => True
+  | x :: r => match r with [] => True | y :: _ => str_ltb x y = true end /\ ssorted r
+  end.
+
+Lemma insert_in s l x : In x (insert_str s l) <-> x = s \/ In x l.
+Proof.
+  induction l as [|y l IH]; simpl.
+  - split; [intros [H|[]]; auto | intros [H|[]]; auto].
+  - destruct (str_eqb s y) eqn:E.
+    + apply str_eqb_eq in E. subst. simpl. split; [auto|]. intros [H|H]; auto.
+    + destruct (str_ltb s y); simpl.
+      * split; intros [H|H]; auto.
+      * rewrite IH. split; [intros [H|[H|H]]|intros [H|[H|H]]]; auto.
+Qed.
+
+Lemma insert_head s l :
+  match insert_str s l with
+  | [] => False
+  | h :: _ => h = s \/ match l with y :: _ => h = y | [] => False end
+  end.
+Proof.
+  destruct l as [|y l]; simpl; [auto|].
+  destruct (str_eqb s y); [auto|]. destruct (str_ltb s y); auto.
+Qed.
+
+Lemma insert_sorted s l : ssorted l -> ssorted (insert_str s l).
+Proof.
+  induction l as [|y l IH]; intro S; simpl.
+  - auto.
+  - destruct (str_eqb s y) eqn:E; [exact S|].
+    destruct (str_ltb s y) eqn:L.
+    + simpl. auto.
+    + destruct S as [S1 S2]. specialize (IH S2).
+      pose proof (str_total s y E L) as Lys.
+      pose proof (insert_head s l) as Hh.
+      simpl. split; [|exact IH].
+      destruct (insert_str s l) as [|h r]; [auto|].
+      destruct Hh as [->|Hh]; [exact Lys|].
+      destruct l as [|z l']; [destruct Hh|]. subst h. exact S1.
+Qed.
+
+Lemma canon_in l x : In x (canon_strs l) <-> In x l.
+Proof.
+  induction l as [|s l IH]; simpl; [tauto|].
+  rewrite insert_in, IH. split; intros [H|H]; auto.
+Qed.
+
+Lemma canon_sorted l : ssorted (canon_strs l).
+Proof. induction l as [|s l IH]; simpl; [auto|]. apply insert_sorted. exact IH. Qed.
+
+Lemma sorted_lt_all x l : ssorted (x :: l) -> forall y, In y l -> str_ltb x y = true.
+Proof.
+  revert x. induction l as [|z l IH]; intros x S y Hin; [destruct Hin|].
+  destruct S as [S1 S2]. destruct Hin as [->|Hin]; [exact S1|].
+  eapply str_ltb_trans; [exact S1|]. apply IH; assumption.
+Qed.
+
+Lemma sorted_unique l1 : forall l2,
+  ssorted l1 -> ssorted l2 -> (forall x, In x l1 <-> In x l2) -> l1 = l2.
+Proof.
+  induction l1 as [|a l1 IH]; intros [|b l2] S1 S2 H.
+  - reflexivity.
+  - exfalso. apply (proj2 (H b)). left. reflexivity.
+  - exfalso. apply (proj1 (H a)). left. reflexivity.
+  - assert (Eab : a = b).
+    { destruct (proj1 (H a) (or_introl eq_refl)) as [E|Hin]; [auto|].
+      destruct (proj2 (H b) (or_introl eq_refl)) as [E|Hin2]; [auto|].
+      pose proof (sorted_lt_all _ _ S2 _ Hin) as L1.
+      pose proof (sorted_lt_all _ _ S1 _ Hin2) as L2.
+      pose proof (str_ltb_trans _ _ _ L1 L2) as L. rewrite str_ltb_irrefl in L. discriminate. }
+    subst b. f_equal. apply IH.
+    + destruct S1; assumption.
+    + destruct S2; assumption.
+    + intro x. split; intro Hx.
+      * destruct (proj1 (H x) (or_intror Hx)) as [E|Hin]; [|exact Hin].
+        subst x. pose proof (sorted_lt_all _ _ S1 _ Hx) as L. rewrite str_ltb_irrefl in L. discriminate.
+      * destruct (proj2 (H x) (or_intror Hx)) as [E|Hin]; [|exact Hin].
+        subst x. pose proof (sorted_lt_all _ _ S2 _ Hx) as L. rewrite str_ltb_irrefl in L. discriminate.
+Qed.
+
+Lemma canon_same l1 l2 : (forall x, In x l1 <-> In x l2) -> canon_strs l1 = canon_strs l2.
+Proof.
+  intro H. apply sorted_unique; try apply canon_sorted.
+  intro x. rewrite !canon_in. apply H.
+Qed.
+
+Lemma canon_idem l : canon_strs (canon_strs l) = canon_strs l.
+Proof.
+  apply sorted_unique; try apply canon_sorted. intro x. rewrite canon_in. tauto.
+Qed.
+
+Lemma strs_of_map l : strs_of (map JStr l) = l.
+Proof. induction l as [|s l IH]; simpl; [reflexivity|]. rewrite IH. reflexivity. Qed.
+
+Lemma strs_of_in l s : In s (strs_of l) <-> In (JStr s) l.
+Proof.
+  induction l as [|x l IH]; simpl; [tauto|].
+  rewrite in_app_iff, IH. destruct x; simpl; split; intros [H|H]; auto; try discriminate; try tauto.
+  - destruct H as [H|[]]. subst. auto.
+  - inv H. auto.
+Qed.
+
+Lemma mk_str_set_idem l : mk_str_set (map JStr (canon_strs (strs_of l))) = mk_str_set l.
+Proof. unfold mk_str_set. rewrite strs_of_map, canon_idem. reflexivity. Qed.
+
+Lemma all_str_map l : forallb is_str (map JStr l) = true.
+Proof. induction l; simpl; auto. Qed.
+
+Lemma unhashable_map l : existsb unhashable (map JStr l) = false.
+Proof. induction l; simpl; auto. Qed.
+
+(* same members, whatever the spelling (list / tuple / set, order, repetitions) *)
+Lemma existsb_same {A} (p : A -> bool) l1 l2 :
+  (forall x, In x l1 <-> In x l2) -> existsb p l1 = existsb p l2.
+Proof.
+  intro H. destruct (existsb p l1) eqn:E1; symmetry.
+  - apply existsb_exists in E1 as [x [Hx Px]]. apply existsb_exists. exists x. split; [apply H; exact Hx|exact Px].
+  - destruct (existsb p l2) eqn:E2; [|reflexivity].
+    apply existsb_exists in E2 as [x [Hx Px]].
+    assert (X : existsb p l1 = true) by (apply existsb_exists; exists x; split; [apply H; exact Hx|exact Px]).
+    rewrite X in E1. discriminate.
+Qed.
+
+Lemma forallb_same {A} (p : A -> bool) l1 l2 :
+  (forall x, In x l1 <-> In x l2) -> forallb p l1 = forallb p l2.
+Proof.
+  intro H. destruct (forallb p l1) eqn:E1; symmetry.
+  - rewrite forallb_forall in *. intros x Hx. apply E1. apply H. exact Hx.
+  - destruct (forallb p l2) eqn:E2; [|reflexivity].
+    assert (X : forallb p l1 = true).
+    { rewrite forallb_forall in *. intros x Hx. apply E2. apply H. exact Hx. }
+    rewrite X in E1. discriminate.
+Qed.
+
+Lemma mk_str_set_same l1 l2 : (forall x, In x l1 <-> In x l2) -> mk_str_set l1 = mk_str_set l2.
+Proof.
+  intro H. unfold mk_str_set. f_equal. f_equal. apply canon_same.
+  intro s. rewrite !strs_of_in. apply H.
+Qed.
+
+Definition seq3 (v : jv) (l : list jv) : Prop := v = JList l \/ v = JTuple l \/ v = JSet l.
+
+Lemma check_extensions_spelling E v1 v2 l1 l2 :
+  seq3 v1 l1 -> seq3 v2 l2 -> (forall x, In x l1 <-> In x l2) ->
+  check_extensions E v1 = check_extensions E v2.
+Proof.
+  intros S1 S2 H.
+  assert (G : forall v l, seq3 v l -> check_extensions E v =
+            if existsb unhashable l then Raise TypeError
+            else if forallb (ext_item E) l then Ok (Some (mk_str_set l)) else Raise ValueError).
+  { intros v l [-> | [-> | ->]]; reflexivity. }
+  rewrite (G _ _ S1), (G _ _ S2).
+  rewrite (existsb_same unhashable l1 l2 H), (forallb_same (ext_item E) l1 l2 H), (mk_str_set_same l1 l2 H).
+  reflexivity.
+Qed.
+
+Lemma check_fence_spelling v1 v2 l1 l2 :
+  seq3 v1 l1 -> seq3 v2 l2 -> (forall x, In x l1 <-> In x l2) ->
+  check_fence_as_directive v1 = check_fence_as_directive v2.
+Proof.
+  intros S1 S2 H.
+  assert (G : forall v l, seq3 v l -> check_fence_as_directive v =
+            if forallb is_str l then Ok (Some (mk_str_set l)) else Raise TypeError).
+  { intros v l [-> | [-> | ->]]; reflexivity. }
+  rewrite (G _ _ S1), (G _ _ S2), (forallb_same is_str l1 l2 H), (mk_str_set_same l1 l2 H). reflexivity.
+Qed.
+
+(* url_schemes: a list of names is the dict {name: None}; a str value is the dict {"url": value} *)
+Lemma dedup_keys_nodup l seen :
+  NoDup l -> (forall s, In s l -> ~ In s seen) ->
+  dedup_keys l seen = map (fun s => (JStr s, JNull)) l.
+Proof.
+  revert seen. induction l as [|s l IH]; intros seen ND Hs; simpl; [reflexivity|].
+  inv ND.
+  assert (M : mem_str s seen = false).
+  { destruct (mem_str s seen) eqn:M; [|reflexivity]. apply mem_str_In in M. exfalso. apply (Hs s); simpl; auto. }
+  rewrite M. f_equal. apply IH; [assumption|].
+  intros x Hx [E|Hin]; [subst; contradiction|]. apply (Hs x); simpl; auto.
+Qed.
+
+Lemma url_list_is_dict l :
+  NoDup l ->
+  check_url_schemes (JList (map JStr l)) = check_url_schemes (JDict (map (fun s => (JStr s, JNull)) l))
+  /\ check_url_schemes (JTuple (map JStr l)) = check_url_schemes (JDict (map (fun s => (JStr s, JNull)) l)).
+Proof.
+  intro ND. unfold check_url_schemes. rewrite all_str_map, strs_of_map.
+  rewrite (dedup_keys_nodup l [] ND) by (intros s _ []). simpl. split; reflexivity.
+Qed.
+
+Lemma url_str_is_dict k u :
+  check_url_schemes (JDict [(JStr k, JStr u)]) =
+  check_url_schemes (JDict [(JStr k, JDict [(JStr s_url, JStr u)])]).
+Proof. reflexivity. Qed.
+
+(* ---------- the stored value is a fixed point of its validator ---------- *)
+
+Lemma url_entry_stable k x k' x' :
+  url_scheme_entry k x = Ok (k', x') -> url_scheme_entry k' x' = Ok (k', x').
+Proof.
+  unfold url_scheme_entry. destruct k; try discriminate.
+  destruct x; try discriminate.
+  - intro H. inv H. reflexivity.
+  - intro H. inv H. reflexivity.
+  - destruct (negb (forallb (fun p => is_str (fst p)) kvs)) eqn:A; [discriminate|].
+    destruct (match dict_get s_url kvs with Some x => negb (is_str x) | None => false end) eqn:B; [discriminate|].
+    destruct (match dict_get s_title kvs with Some x => negb (is_str x) | None => false end) eqn:C; [discriminate|].
+    destruct (match dict_get s_classes kvs with
+              | Some (JList cs) => negb (forallb is_str cs) | Some _ => true | None => false end) eqn:D;
+      [discriminate|].
+    intro H. inv H. rewrite A, B, C, D. reflexivity.
+Qed.
+
+Lemma url_entries_stable kvs r :
+  url_scheme_entries kvs = Ok r -> url_scheme_entries r = Ok r.
+Proof.
+  revert r. induction kvs as [|[k x] kvs IH]; intros r H; simpl in H.
+  - inv H. reflexivity.
+  - destruct (url_scheme_entry k x) as [[k' x']|e] eqn:En; simpl in H; [|discriminate].
+    destruct (url_scheme_entries kvs) as [r'|e] eqn:R; simpl in H; [|discriminate].
+    inv H. simpl. rewrite (url_entry_stable _ _ _ _ En). simpl. rewrite (IH r' eq_refl). reflexivity.
+Qed.
+
+Lemma check_url_stable v c : check_url_schemes v = Ok (Some c) -> check_url_schemes c = Ok (Some c).
+Proof.
+  unfold check_url_schemes. intro H.
+  assert (G : exists kvs r, url_scheme_entries kvs = Ok r /\ c = JDict r).
+  { destruct v; simpl in H; try discriminate H.
+    - destruct (forallb is_str l); simpl in H; [|discriminate].
+      destruct (url_scheme_entries _) as [r|] eqn:R; simpl in H; [|discriminate]. inv H. eauto.
+    - destruct (forallb is_str l); simpl in H; [|discriminate].
+      destruct (url_scheme_entries _) as [r|] eqn:R; simpl in H; [|discriminate]. inv H. eauto.
+    - destruct (url_scheme_entries kvs) as [r|] eqn:R; simpl in H; [|discriminate]. inv H. eauto. }
+  destruct G as [kvs [r [R ->]]]. simpl. rewrite (url_entries_stable _ _ R). reflexivity.
+Qed.
+
+Lemma check_ext_stable E v c : check_extensions E v = Ok (Some c) -> check_extensions E c = Ok (Some c).
+Proof.
+  intro H.
+  assert (G : exists l, existsb unhashable l = false /\ forallb (ext_item E) l = true /\ c = mk_str_set l).
+  { destruct v; simpl in H; try discriminate H;
+      (destruct (existsb unhashable l) eqn:U; [discriminate|]);
+      (destruct (forallb _ l) eqn:F; [|discriminate]); inv H; exists l; auto. }
+  destruct G as [l [U [F ->]]]. unfold mk_str_set. simpl.
+  rewrite unhashable_map.
+  assert (F2 : forallb (fun x => match x with JStr s => mem_str s (e_known_ext E) | _ => false end)
+                       (map JStr (canon_strs (strs_of l))) = true).
+  { apply forallb_forall. intros x Hx. apply in_map_iff in Hx as [s [<- Hs]].
+    apply (proj1 (canon_in _ _)) in Hs. apply (proj1 (strs_of_in _ _)) in Hs.
+    rewrite forallb_forall in F. apply (F _ Hs). }
+  rewrite F2. f_equal. f_equal. unfold mk_str_set. rewrite strs_of_map, canon_idem. reflexivity.
+Qed.
+
+Lemma check_fence_stable v c :
+  check_fence_as_directive v = Ok (Some c) -> check_fence_as_directive c = Ok (Some c).
+Proof.
+  intro H.
+  assert (G : exists l, c = mk_str_set l).
+  { destruct v; simpl in H; try discriminate H; (destruct (forallb is_str l); [|discriminate]); inv H; eauto. }
+  destruct G as [l ->]. unfold mk_str_set. simpl. rewrite all_str_map.
+  unfold mk_str_set. rewrite strs_of_map, canon_idem. reflexivity.
+Qed.
+
+Lemma str_eqb_sym a b : str_eqb a b = str_eqb b a.
+Proof.
+  destruct (str_eqb a b) eqn:E.
+  - apply str_eqb_eq in E. subst. symmetry. apply str_eqb_refl.
+  - symmetry. apply str_eqb_neq. apply str_eqb_neq in E. congruence.
+Qed.
+
+Lemma custom_stable E n v c : custom E n v = Ok (Some c) -> stable E (VCustom n) c.
+Proof.
+  unfold stable. cbn [validate]. unfold custom.
+  destruct (str_eqb n n_check_extensions); [intro H; right; apply (check_ext_stable _ _ _ H)|].
+  destruct (str_eqb n n_check_url_schemes); [intro H; right; apply (check_url_stable _ _ H)|].
+  destruct (str_eqb n n_check_sub_delimiters).
+  { intro H. exfalso. unfold check_sub_delimiters in H.
+    destruct v; try discriminate H; destruct l as [|a [|b [|? ?]]]; try discriminate H;
+      destruct (str_len1 a && str_len1 b); discriminate H. }
+  destruct (str_eqb n n_check_inventories).
+  { intro H. exfalso. unfold check_inventories in H. destruct v; try discriminate H.
+    destruct (forallb _ kvs); discriminate H. }
+  destruct (str_eqb n n_check_heading_slug_func).
+  { intro H. left. unfold check_heading_slug_func in H.
+    destruct v; try discriminate H.
+    - destruct (negb (mem_N c_dot s)); [discriminate|].
+      destruct (e_import E s) as [obj| | |]; try discriminate H.
+      destruct obj; try discriminate H. inv H. reflexivity. }
+  destruct (str_eqb n n_check_fence_as_directive); [intro H; right; apply (check_fence_stable _ _ H)|].
+  discriminate.
+Qed.
+
+(* every simple validator leaves a value that re-validates to itself *)
+Theorem validated_is_stable E e v co :
+  simple_validator e = true -> validate E e v = Ok co -> stable E e (coerced co v).
+Proof.
+  unfold simple_validator. intros S H.
+  destruct (no_custom e) eqn:NC.
+  - pose proof (no_custom_none E e NC v co H) as ->. simpl. left. exact H.
+  - destruct e; try discriminate S. cbn [validate] in H.
+    destruct co as [c|]; simpl.
+    + apply (custom_stable E name v c H).
+    + left. exact H.
+Qed.
+
+(* ====================================================================== *)
+(* The dataclass: constructor, copy, merge_file_level                     *)
+(* ====================================================================== *)
+
+Definition shape (fs : list field) (c : config) : Prop :=
+  Forall2 (fun f kv => fst kv = f_name f) fs c.
+
+Lemma stable_cfg_shape E fs c : stable_cfg E fs c -> shape fs c.
+Proof. intro H. induction H as [|f kv fs c [A _] _ IH]; constructor; assumption. Qed.
+
+Lemma nodup_cons n l : nodup_names (n :: l) = true -> ~ In n l /\ nodup_names l = true.
+Proof.
+  simpl. intro H. apply andb_true_iff in H as [H1 H2]. split; [|exact H2].
+  intro Hin. apply mem_str_In in Hin. rewrite Hin in H1. discriminate.
+Qed.
+
+Lemma find_field_in fs f :
+  nodup_names (map f_name fs) = true -> In f fs -> find_field (f_name f) fs = Some f.
+Proof.
+  induction fs as [|g fs IH]; intros ND Hin; [destruct Hin|].
+  simpl in ND. apply nodup_cons in ND as [Hn ND]. simpl.
+  destruct Hin as [->|Hin].
+  - rewrite str_eqb_refl. reflexivity.
+  - destruct (str_eqb (f_name g) (f_name f)) eqn:E.
+    + apply str_eqb_eq in E. exfalso. apply Hn. rewrite E. apply in_map. exact Hin.
+    + apply IH; assumption.
+Qed.
+
+Lemma find_field_name n fs f : find_field n fs = Some f -> f_name f = n /\ In f fs.
+Proof.
+  induction fs as [|g fs IH]; simpl; [discriminate|].
+  destruct (str_eqb (f_name g) n) eqn:E.
+  - intro H. inv H. apply str_eqb_eq in E. auto.
+  - intro H. destruct (IH H). auto.
+Qed.
+
+Lemma find_field_some fs n : In n (map f_name fs) -> exists f, find_field n fs = Some f.
+Proof.
+  induction fs as [|g fs IH]; simpl; [intros []|].
+  intros [E|Hin].
+  - subst. rewrite str_eqb_refl. eauto.
+  - destruct (str_eqb (f_name g) n); eauto.
+Qed.
+
+Lemma cfg_get_notin n c : ~ In n (map fst c) -> cfg_get n c = None.
+Proof.
+  induction c as [|[k x] c IH]; simpl; intro H; [reflexivity|].
+  destruct (str_eqb k n) eqn:E.
+  - apply str_eqb_eq in E. exfalso. apply H. auto.
+  - apply IH. intro Hin. apply H. auto.
+Qed.
+
+Lemma shape_names fs c : shape fs c -> map fst c = map f_name fs.
+Proof. induction 1 as [|f kv fs c H _ IH]; simpl; [reflexivity|]. rewrite H, IH. reflexivity. Qed.
+
+Lemma raw_of_ext kw1 kw2 fs :
+  (forall g, In g fs -> cfg_get (f_name g) kw1 = cfg_get (f_name g) kw2) ->
+  raw_of kw1 fs = raw_of kw2 fs.
+Proof.
+  intro H. unfold raw_of. apply map_ext_in. intros g Hg. unfold lookup_kw. rewrite (H g Hg). reflexivity.
+Qed.
+
+Lemma raw_of_self fs c :
+  nodup_names (map f_name fs) = true -> shape fs c -> raw_of c fs = c.
+Proof.
+  intros ND S. induction S as [|f [n v] fs c Hn S IH]; [reflexivity|].
+  simpl in Hn. subst n. simpl in ND. apply nodup_cons in ND as [Hnot ND].
+  unfold raw_of. simpl. unfold lookup_kw at 1. simpl. rewrite str_eqb_refl. f_equal.
+  fold (raw_of ((f_name f, v) :: c) fs).
+  rewrite (raw_of_ext _ c).
+  - apply IH. exact ND.
+  - intros g Hg. simpl. destruct (str_eqb (f_name f) (f_name g)) eqn:E; [|reflexivity].
+    apply str_eqb_eq in E. exfalso. apply Hnot. rewrite E. apply in_map. exact Hg.
+Qed.
+
+Lemma raw_of_set fs c m w :
+  nodup_names (map f_name fs) = true -> shape fs c ->
+  raw_of ((m, w) :: c) fs = cfg_set m w c.
+Proof.
+  intros ND S. induction S as [|f [n v] fs c Hn S IH]; [reflexivity|].
+  simpl in Hn. subst n. pose proof ND as ND0. simpl in ND. apply nodup_cons in ND as [Hnot ND].
+  unfold raw_of. simpl. unfold lookup_kw at 1. simpl.
+  rewrite (str_eqb_sym m (f_name f)).
+  destruct (str_eqb (f_name f) m) eqn:E.
+  - apply str_eqb_eq in E. subst m. f_equal.
+    fold (raw_of ((f_name f, w) :: (f_name f, v) :: c) fs).
+    rewrite (raw_of_ext _ c); [apply raw_of_self; assumption|].
+    intros g Hg. simpl. destruct (str_eqb (f_name f) (f_name g)) eqn:E2; [|reflexivity].
+    apply str_eqb_eq in E2. exfalso. apply Hnot. rewrite E2. apply in_map. exact Hg.
+  - rewrite str_eqb_refl. f_equal.
+    fold (raw_of ((m, w) :: (f_name f, v) :: c) fs).
+    rewrite (raw_of_ext _ ((m, w) :: c)); [apply IH; exact ND|].
+    intros g Hg. simpl. destruct (str_eqb m (f_name g)); [reflexivity|].
+    destruct (str_eqb (f_name f) (f_name g)) eqn:E2; [|reflexivity].
+    apply str_eqb_eq in E2. exfalso. apply Hnot. rewrite E2. apply in_map. exact Hg.
+Qed.
+
+Lemma validate_fields_stable E fs c : stable_cfg E fs c -> validate_fields E fs c = Ok c.
+Proof.
+  induction 1 as [|f [n v] fs c [Hn Hs] _ IH]; [reflexivity|].
+  simpl in *. destruct Hs as [Hs|Hs]; rewrite Hs; simpl; rewrite IH; reflexivity.
+Qed.
+
+Lemma cfg_set_notin n v c : ~ In n (map fst c) -> cfg_set n v c = c.
+Proof.
+  induction c as [|[k x] c IH]; simpl; intro H; [reflexivity|].
+  destruct (str_eqb k n) eqn:E.
+  - apply str_eqb_eq in E. exfalso. apply H. auto.
+  - f_equal. apply IH. intro Hin. apply H. auto.
+Qed.
+
+Lemma validate_fields_set E fs c f v :
+  nodup_names (map f_name fs) = true -> stable_cfg E fs c -> In f fs ->
+  validate_fields E fs (cfg_set (f_name f) v c) =
+  match validate E (f_val f) v with
+  | Ok co => Ok (cfg_set (f_name f) (coerced co v) c)
+  | Raise e => Raise e
+  end.
+Proof.
+  intros ND S. revert ND. induction S as [|g [n x] fs c [Hn Hs] S IH]; intros ND Hin; [destruct Hin|].
+  simpl in Hn. subst n. simpl in ND. apply nodup_cons in ND as [Hnot ND].
+  pose proof (shape_names _ _ (stable_cfg_shape _ _ _ S)) as Names.
+  destruct Hin as [->|Hin].
+  - simpl. rewrite str_eqb_refl. simpl.
+    destruct (validate E (f_val f) v) as [co|e]; simpl; [|reflexivity].
+    rewrite (validate_fields_stable _ _ _ S). reflexivity.
+  - assert (E0 : str_eqb (f_name g) (f_name f) = false).
+    { apply str_eqb_neq. intro E0. apply Hnot. rewrite E0. apply in_map. exact Hin. }
+    simpl. rewrite E0. simpl.
+    assert (Vg : exists co, validate E (f_val g) x = Ok co /\ coerced co x = x).
+    { simpl in Hs. destruct Hs as [Hs|Hs]; eexists; split; try exact Hs; reflexivity. }
+    destruct Vg as [cog [Vg Cg]]. rewrite Vg. simpl. rewrite Cg.
+    rewrite (IH ND Hin). destruct (validate E (f_val f) v); reflexivity.
+Qed.
+
+Lemma kw_known fs c : shape fs c ->
+  forallb (fun kv => match find_field (fst kv) fs with Some _ => true | None => false end) c = true.
+Proof.
+  intro S. pose proof (shape_names _ _ S) as Names.
+  apply forallb_forall. intros [n v] Hin.
+  assert (Hn : In n (map f_name fs)) by (rewrite <- Names; apply (in_map fst _ _ Hin)).
+  destruct (find_field_some _ _ Hn) as [f Hf]. simpl. rewrite Hf. reflexivity.
+Qed.
+
+Lemma copy_nil E fs c :
+  nodup_names (map f_name fs) = true -> stable_cfg E fs c -> copy E fs c [] = Ok c.
+Proof.
+  intros ND S. unfold copy, mk_config. simpl.
+  rewrite (kw_known _ _ (stable_cfg_shape _ _ _ S)). simpl.
+  rewrite (raw_of_self _ _ ND (stable_cfg_shape _ _ _ S)).
+  apply validate_fields_stable. exact S.
+Qed.
+
+Lemma copy_one E fs c f v :
+  nodup_names (map f_name fs) = true -> stable_cfg E fs c -> In f fs ->
+  copy E fs c [(f_name f, v)] =
+  match validate E (f_val f) v with
+  | Ok co => Ok (cfg_set (f_name f) (coerced co v) c)
+  | Raise e => Raise e
+  end.
+Proof.
+  intros ND S Hin. unfold copy, mk_config. simpl.
+  rewrite (find_field_in _ _ ND Hin). simpl.
+  rewrite (kw_known _ _ (stable_cfg_shape _ _ _ S)). simpl.
+  rewrite (raw_of_set _ _ _ _ ND (stable_cfg_shape _ _ _ S)).
+  apply validate_fields_set; assumption.
+Qed.
+
+(* the constructor produces a stable instance *)
+Lemma validate_fields_gives_stable E fs : forall raw c,
+  forallb (fun f => simple_validator (f_val f)) fs = true ->
+  shape fs raw -> validate_fields E fs raw = Ok c -> stable_cfg E fs c.
+Proof.
+  induction fs as [|f fs IH]; intros raw c SV S H.
+  - inv S. simpl in H. inv H. constructor.
+  - inv S. destruct y as [n v]. simpl in *. subst n.
+    apply andb_true_iff in SV as [SV1 SV2].
+    destruct (validate E (f_val f) v) as [co|e] eqn:V; simpl in H; [|discriminate].
+    destruct (validate_fields E fs l') as [rest|e] eqn:R; simpl in H; [|discriminate].
+    inv H. constructor.
+    + simpl. split; [reflexivity|]. eapply validated_is_stable; eassumption.
+    + eapply IH; eassumption.
+Qed.
+
+Lemma raw_of_shape kw fs : shape fs (raw_of kw fs).
+Proof. induction fs as [|f fs IH]; simpl; constructor; auto. Qed.
+
+Theorem mk_config_stable E fs kw c :
+  forallb (fun f => simple_validator (f_val f)) fs = true ->
+  mk_config E fs kw = Ok c -> stable_cfg E fs c.
+Proof.
+  intros SV H. unfold mk_config in H.
+  destruct (negb _); [discriminate|].
+  eapply validate_fields_gives_stable; [exact SV| |exact H]. apply raw_of_shape.
+Qed.
+
+(* ---------- merge_file_level ---------- *)
+
+Lemma cfg_get_in fs c f : shape fs c -> In f fs -> exists v, cfg_get (f_name f) c = Some v.
+Proof.
+  intros S Hin. destruct (cfg_get (f_name f) c) eqn:G; [eauto|]. exfalso.
+  assert (Hn : In (f_name f) (map fst c)).
+  { rewrite (shape_names _ _ S). apply in_map. exact Hin. }
+  clear - G Hn. induction c as [|[k x] c IH]; simpl in *; [destruct Hn|].
+  destruct (str_eqb k (f_name f)) eqn:E; [discriminate|].
+  destruct Hn as [Hn|Hn]; [subst; rewrite str_eqb_refl in E; discriminate|auto].
+Qed.
+
+Lemma cfg_set_same n v c : cfg_get n c = Some v -> cfg_set n v c = c.
+Proof.
+  induction c as [|[k x] c IH]; simpl; [discriminate|].
+  destruct (str_eqb k n); intro H; [inv H; reflexivity|]. f_equal. auto.
+Qed.
+
+Lemma merge_one E kr fs c f v :
+  nodup_names (map f_name fs) = true -> stable_cfg E fs c -> In f fs ->
+  merge_file_level_gen E kr fs c (top_of (f_name f) v) =
+  match cfg_get (f_name f) c with
+  | None => Raise AssertionError
+  | Some old =>
+      match validate E (f_val f) v with
+      | Raise _ => Ok {| st_global := c; st_new := c; st_warn := [WInvalid (f_name f)] |}
+      | Ok co =>
+          let stored := if kr then v else coerced co v in
+          match (if f_merge f then dict_merge old stored else Ok stored) with
+          | Ok final => Ok {| st_global := c; st_new := cfg_set (f_name f) final c; st_warn := [] |}
+          | Raise e => Raise e
+          end
+      end
+  end.
+Proof.
+  intros ND S Hin.
+  destruct (cfg_get_in _ _ _ (stable_cfg_shape _ _ _ S) Hin) as [old G]. rewrite G.
+  unfold merge_file_level_gen, top_of.
+  change (dict_get s_myst [(JStr s_myst, JDict [(JStr (f_name f), v)])])
+    with (Some (JDict [(JStr (f_name f), v)])).
+  change (dict_get s_html_meta [(JStr s_myst, JDict [(JStr (f_name f), v)])]) with (@None jv).
+  change (dict_get s_substitutions [(JStr s_myst, JDict [(JStr (f_name f), v)])]) with (@None jv).
+  cbn beta iota. rewrite (copy_nil _ _ _ ND S). cbn [bind merge_loop].
+  unfold merge_step. cbn [st_global st_new st_warn].
+  rewrite (find_field_in _ _ ND Hin), G.
+  destruct (validate E (f_val f) v) as [co|e].
+  - destruct (if f_merge f then dict_merge old (if kr then v else coerced co v)
+              else Ok (if kr then v else coerced co v)) as [final|e]; reflexivity.
+  - cbn. destruct kr; [reflexivity|]. rewrite (cfg_set_same _ _ _ G). reflexivity.
+Qed.
+
+(* merging dict-valued options *)
+Lemma dict_set_key_Forall (Pk Pv : jv -> Prop) key x kvs :
+  Forall (fun p => Pk (fst p) /\ Pv (snd p)) kvs -> Pk key -> Pv x ->
+  Forall (fun p => Pk (fst p) /\ Pv (snd p)) (dict_set_key key x kvs).
+Proof.
+  intros F Hk Hv. induction kvs as [|[k y] kvs IH]; simpl.
+  - constructor; auto.
+  - inv F. destruct (key_eqb k key).
+    + constructor; [simpl in *; tauto|assumption].
+    + constructor; auto.
+Qed.
+
+Lemma dict_merge_Forall (Pk Pv : jv -> Prop) n : forall o,
+  Forall (fun p => Pk (fst p) /\ Pv (snd p)) o ->
+  Forall (fun p => Pk (fst p) /\ Pv (snd p)) n ->
+  Forall (fun p => Pk (fst p) /\ Pv (snd p))
+         (fold_left (fun acc p => dict_set_key (fst p) (snd p) acc) n o).
+Proof.
+  induction n as [|[k x] n IH]; intros o Fo Fn; simpl; [exact Fo|].
+  inv Fn. apply IH; [|assumption]. apply dict_set_key_Forall; simpl in *; tauto.
+Qed.
+
+Lemma deep_mapping_accepts E k vv v :
+  is_ok (validate E (VDeepMapping k vv (VInstanceOf [PyDict] false)) v) = true <->
+  exists kvs, v = JDict kvs /\
+    Forall (fun p => is_ok (validate E k (fst p)) = true /\ is_ok (validate E vv (snd p)) = true) kvs.
+Proof.
+  cbn [validate]. split.
+  - intro H. destruct v; try discriminate H. exists kvs. split; [reflexivity|].
+    cbn in H. apply iter_pairs_ok in H. exact H.
+  - intros [kvs [-> F]]. cbn. apply iter_pairs_ok. exact F.
+Qed.
+
+Lemma merge_closed_merge E e old v :
+  merge_closed e = true ->
+  is_ok (validate E e old) = true -> is_ok (validate E e v) = true ->
+  exists m, dict_merge old v = Ok m /\ validate E e m = Ok None.
+Proof.
+  intros MC Ho Hv. destruct e; try discriminate MC.
+  destruct e3; try discriminate MC. destruct ts as [|[] [|? ?]]; try discriminate MC.
+  destruct is_tuple; [discriminate MC|].
+  simpl in MC. apply andb_true_iff in MC as [N1 N2].
+  apply deep_mapping_accepts in Ho as [o [-> Fo]]. apply deep_mapping_accepts in Hv as [n [-> Fn]].
+  eexists. split; [reflexivity|].
+  set (m := fold_left (fun acc p => dict_set_key (fst p) (snd p) acc) n o).
+  assert (Fm : is_ok (validate E (VDeepMapping e1 e2 (VInstanceOf [PyDict] false)) (JDict m)) = true).
+  { apply deep_mapping_accepts. exists m. split; [reflexivity|].
+    apply (dict_merge_Forall (fun x => is_ok (validate E e1 x) = true) (fun x => is_ok (validate E e2 x) = true));
+      assumption. }
+  destruct (validate E (VDeepMapping e1 e2 (VInstanceOf [PyDict] false)) (JDict m)) as [co|] eqn:V; [|discriminate].
+  assert (NC : no_custom (VDeepMapping e1 e2 (VInstanceOf [PyDict] false)) = true).
+  { simpl. rewrite N1, N2. reflexivity. }
+  rewrite (no_custom_none E _ NC _ _ V). reflexivity.
+Qed.
+
+Lemma merge_closed_no_custom e : merge_closed e = true -> no_custom e = true.
+Proof.
+  destruct e as [| | | | |k vv mm|]; try discriminate.
+  destruct mm as [|ts tup| | | | |]; try discriminate.
+  destruct ts as [|[] [|? ?]]; try discriminate. destruct tup; [discriminate|].
+  simpl. intro H. rewrite H. reflexivity.
+Qed.
+
+Lemma stable_is_ok E e c : stable E e c -> is_ok (validate E e c) = true.
+Proof. intros [H|H]; rewrite H; reflexivity. Qed.
+
+Lemma stable_cfg_get E fs c f old :
+  nodup_names (map f_name fs) = true -> stable_cfg E fs c -> In f fs ->
+  cfg_get (f_name f) c = Some old -> stable E (f_val f) old.
+Proof.
+  intros ND S. revert ND. induction S as [|g [n x] fs c [Hn Hs] S IH]; intros ND Hin G; [destruct Hin|].
+  simpl in Hn. subst n. simpl in ND. apply nodup_cons in ND as [Hnot ND]. simpl in G.
+  destruct Hin as [->|Hin].
+  - rewrite str_eqb_refl in G. inv G. exact Hs.
+  - destruct (str_eqb (f_name g) (f_name f)) eqn:E0.
+    + apply str_eqb_eq in E0. exfalso. apply Hnot. rewrite E0. apply in_map. exact Hin.
+    + apply IH; assumption.
+Qed.
+
+(* front matter = global *)
+Theorem frontmatter_equals_global E fs c f v :
+  nodup_names (map f_name fs) = true -> table_ok fs = true -> stable_cfg E fs c -> In f fs ->
+  match validate E (f_val f) v with
+  | Raise _ =>
+      (* invalid: ignored, one warning, and the global setting would be rejected too *)
+      merge_file_level E fs c (top_of (f_name f) v)
+        = Ok {| st_global := c; st_new := c; st_warn := [WInvalid (f_name f)] |}
+      /\ is_ok (copy E fs c [(f_name f, v)]) = false
+  | Ok _ =>
+      exists new,
+        merge_file_level E fs c (top_of (f_name f) v)
+          = Ok {| st_global := c; st_new := new; st_warn := [] |} /\
+        if f_merge f
+        then exists old merged, cfg_get (f_name f) c = Some old /\ dict_merge old v = Ok merged /\
+                                copy E fs c [(f_name f, merged)] = Ok new
+        else copy E fs c [(f_name f, v)] = Ok new
+  end.
+Proof.
+  intros ND TO S Hin. unfold merge_file_level.
+  rewrite (merge_one E false fs c f v ND S Hin).
+  destruct (cfg_get_in _ _ _ (stable_cfg_shape _ _ _ S) Hin) as [old G]. rewrite G.
+  unfold table_ok in TO. rewrite forallb_forall in TO. specialize (TO f Hin).
+  apply andb_true_iff in TO as [SV MC].
+  destruct (validate E (f_val f) v) as [co|e] eqn:V.
+  - cbn zeta. destruct (f_merge f) eqn:M.
+    + simpl in MC.
+      pose proof (stable_is_ok _ _ _ (stable_cfg_get _ _ _ _ _ ND S Hin G)) as Ho.
+      assert (Hv : is_ok (validate E (f_val f) v) = true) by (rewrite V; reflexivity).
+      destruct (merge_closed_merge E _ old v MC Ho Hv) as [m [Dm Vm]].
+      pose proof (merge_closed_no_custom _ MC) as NC.
+      pose proof (no_custom_none E _ NC _ _ V) as ->. simpl. rewrite Dm.
+      eexists. split; [reflexivity|]. exists old, m. repeat split; auto.
+      rewrite (copy_one _ _ _ _ _ ND S Hin), Vm. reflexivity.
+    + eexists. split; [reflexivity|]. rewrite (copy_one _ _ _ _ _ ND S Hin), V. reflexivity.
+  - split; [reflexivity|]. rewrite (copy_one _ _ _ _ _ ND S Hin), V. reflexivity.
+Qed.
+
+(* the global config object is never written *)
+Lemma merge_loop_global E kr fs ups : forall st st',
+  merge_loop E kr fs st ups = Ok st' -> st_global st' = st_global st.
+Proof.
+  induction ups as [|u ups IH]; intros st st' H; simpl in H.
+  - inv H. reflexivity.
+  - destruct (merge_step E kr fs st u) as [st1|e] eqn:M; simpl in H; [|discriminate].
+    rewrite (IH _ _ H). clear - M. unfold merge_step in M. destruct u as [name value].
+    destruct name; try (inv M; reflexivity).
+    destruct (find_field s fs) as [f|]; [|inv M; reflexivity].
+    destruct (cfg_get s (st_global st)) as [old|]; [|inv M; reflexivity].
+    destruct (validate E (f_val f) value) as [co|e]; [|inv M; reflexivity].
+    destruct (if f_merge f then _ else _) as [final|e]; simpl in M; inv M. reflexivity.
+Qed.
+
+Theorem global_untouched E kr fs c top st :
+  merge_file_level_gen E kr fs c top = Ok st -> st_global st = c.
+Proof.
+  unfold merge_file_level_gen. destruct top; try discriminate.
+  destruct (match dict_get s_myst kvs with Some m => m | None => JDict [] end) as [| | | | | | | |u| |];
+    cbn zeta beta iota;
+    destruct (dict_get s_html_meta kvs); destruct (dict_get s_substitutions kvs); cbn zeta beta iota;
+    (destruct (copy E fs c []) as [new|e]; [|discriminate]); cbn [bind];
+    intro H; apply merge_loop_global in H; exact H.
+Qed.
+
+(* exactly one warning per unknown or invalid entry *)
+Lemma merge_loop_warnings E fs ups : forall st st',
+  merge_loop E false fs st ups = Ok st' ->
+  length (st_warn st') = (length (st_warn st) + length (filter (bad_update E fs (st_global st)) ups))%nat.
+Proof.
+  induction ups as [|u ups IH]; intros st st' H; simpl in H.
+  - inv H. simpl. lia.
+  - destruct (merge_step E false fs st u) as [st1|e] eqn:M; simpl in H; [|discriminate].
+    pose proof (IH _ _ H) as L.
+    assert (G : st_global st1 = st_global st /\
+                length (st_warn st1) = (length (st_warn st) + if bad_update E fs (st_global st) u then 1 else 0)%nat).
+    { clear - M. unfold merge_step in M. unfold bad_update. destruct u as [name value]. simpl.
+      destruct name; try (inv M; simpl; rewrite app_length; simpl; split; [reflexivity|lia]).
+      destruct (find_field s fs) as [f|]; [|inv M; simpl; rewrite app_length; simpl; split; [reflexivity|lia]].
+      destruct (cfg_get s (st_global st)) as [old|]; [|inv M; simpl; rewrite app_length; simpl; split; [reflexivity|lia]].
+      destruct (validate E (f_val f) value) as [co|e]; [|inv M; simpl; rewrite app_length; simpl; split; [reflexivity|lia]].
+      destruct (if f_merge f then _ else _) as [final|e]; simpl in M; inv M. simpl. split; [reflexivity|lia]. }
+    destruct G as [G1 G2]. rewrite G1 in L. simpl.
+    destruct (bad_update E fs (st_global st) u); simpl; lia.
+Qed.
+
+(* ---------- docutils option strings ---------- *)
+
+Lemma docutils_one E fs f s y :
+  nodup_names (map f_name fs) = true -> In f fs -> f_omit_docutils f = false ->
+  docutils_config E fs [(f_name f, s, y)] =
+  (do k <- optparse_kind f; do v <- decode k s y; mk_config E fs [(f_name f, v)]).
+Proof.
+  intros ND Hin Om. unfold docutils_config. simpl.
+  rewrite (find_field_in _ _ ND Hin), Om.
+  destruct (optparse_kind f) as [k|e]; simpl; [|reflexivity].
+  destruct (decode k s y) as [v|e]; reflexivity.
+Qed.
+
+(* a comma separated string of clean items decodes to those items *)
+Lemma split_aux_nocomma p : forall s cur,
+  mem_N c_comma p = false ->
+  split_char_aux c_comma (p ++ s) cur = split_char_aux c_comma s (rev p ++ cur).
+Proof.
+  induction p as [|c p IH]; intros s cur H; [reflexivity|].
+  unfold mem_N in H. cbn [existsb] in H. apply orb_false_iff in H as [H1 H2].
+  rewrite N.eqb_sym in H1. cbn [split_char_aux app]. rewrite H1.
+  rewrite (IH s (c :: cur) H2). cbn [rev]. rewrite <- app_assoc. reflexivity.
+Qed.
+
+Lemma split_join items :
+  items <> [] -> Forall (fun p => mem_N c_comma p = false) items ->
+  split_char c_comma (join [c_comma] items) = items.
+Proof.
+  intros NE F. unfold split_char. induction items as [|p items IH]; [congruence|].
+  inv F. destruct items as [|q items].
+  - simpl. rewrite <- (app_nil_r p) at 1. rewrite (split_aux_nocomma p [] [] H1). simpl.
+    rewrite app_nil_r, rev_involutive. reflexivity.
+  - change (join [c_comma] (p :: q :: items)) with (p ++ c_comma :: join [c_comma] (q :: items)).
+    rewrite (split_aux_nocomma p _ [] H1). cbn [split_char_aux]. rewrite N.eqb_refl, app_nil_r, rev_involutive.
+    f_equal. apply IH; [discriminate|assumption].
+Qed.
+
+Lemma lstrip_head p c s : p c = false -> lstrip_by p (c :: s) = c :: s.
+Proof. intro H. simpl. rewrite H. reflexivity. Qed.
+
+Lemma strip_clean s : clean_item s = true -> strip_chars ws3 s = s.
+Proof.
+  unfold clean_item, strip_chars, strip_by. intro H.
+  apply andb_true_iff in H as [H123 H4]. apply andb_true_iff in H123 as [H12 H3].
+  destruct s as [|c s]; [discriminate|].
+  apply negb_true_iff in H3. rewrite (lstrip_head _ c s H3).
+  destruct (rev (c :: s)) as [|d r] eqn:R; [discriminate|].
+  apply negb_true_iff in H4. rewrite (lstrip_head _ d r H4). rewrite <- R. apply rev_involutive.
+Qed.
+
+Lemma comma_list_join items :
+  Forall (fun p => clean_item p = true) items -> comma_list (join [c_comma] items) = items.
+Proof.
+  intro F. unfold comma_list. destruct items as [|p items]; [reflexivity|].
+  rewrite split_join.
+  - induction F as [|x l Hx _ IH]; [reflexivity|]. simpl. rewrite (strip_clean x Hx).
+    unfold clean_item in Hx. destruct x; [discriminate|]. simpl. f_equal. exact IH.
+  - discriminate.
+  - eapply Forall_impl; [|exact F]. intros x Hx. unfold clean_item in Hx.
+    apply andb_true_iff in Hx as [H123 _]. apply andb_true_iff in H123 as [H12 _].
+    apply andb_true_iff in H12 as [_ H2]. apply negb_true_iff. exact H2.
 Qed.
